@@ -25,14 +25,17 @@ GROW_RX = r"Vec::(push|insert|extend|extend_from_slice|append|resize|resize_with
 
 
 def r14_1(ctx, fx):
+    """capacity: `KBucket.nodes` grows at exactly one site - the `Vec::push` of VacantSlot::insert, on the `index == None` edge - and a
+    slot with `index: None` (append) is handed out by KBucket::entry only behind `nodes.len() < 20`.  A lookup itself stores nothing
+    (F44: entry() used to push a placeholder peer for every unknown key, which used up the bucket's capacity)."""
     growers = []
     for key in sorted(fx.find(r"^protocol::libp2p::kademlia::(bucket|routing_table)::")):
         fn = fx.fn(key)
         for c in fn.calls(GROW_RX):
             if re.search(r"\.nodes\b", fn.recv(c)):
                 growers.append((key, c))
-    ctx.ob("R14.1", "KBucket.nodes-grown-only-by-one-push-in-KBucket::entry",
-           len(growers) == 1 and growers[0][0] == KB + "KBucket::entry" and growers[0][1].matches(r"Vec::push$"), cfg=fx.cfg,
+    ctx.ob("R14.1", "KBucket.nodes-grown-only-by-the-push-of-VacantSlot::insert",
+           len(growers) == 1 and re.search(r"bucket::VacantSlot(::<.*>)?::insert$", growers[0][0]) is not None and growers[0][1].matches(r"Vec::push$"), cfg=fx.cfg,
            detail="growth sites: %s" % [(short(k), c.name) for k, c in growers])
     adt = fx.adts.get(KB + "KBucket")
     if adt is not None:
@@ -40,20 +43,36 @@ def r14_1(ctx, fx):
         ctx.ob("R14.1", "KBucket.nodes-is-private", bool(vis) and all(re.search(r"::bucket\)\)$", str(v)) for v in vis), cfg=fx.cfg, detail=str(vis))
     else:
         ctx.anchor("R14.1", "adt KBucket", 0, 1, cfg=fx.cfg)
+    vs = fx.adts.get(KB + "VacantSlot")
+    if vs is not None:
+        vis = [f.get("vis") for v in vs.get("variants", []) for f in v.get("fields", [])]
+        ctx.ob("R14.1", "VacantSlot-fields-are-private", bool(vis) and all(re.search(r"::bucket\)\)$", str(v)) for v in vis), cfg=fx.cfg, detail=str(vis))
+    # the push sits on the None edge of self.index
+    for key, c in growers:
+        gfn = fx.fn(key)
+        sws = [sw for sw in gfn.discr_switches() if sw[2].endswith("option::Option") and gfn.origin({"c": list(sw[1])}).endswith(".index")]
+        ok = bool(sws) and any(gfn.only_via(c.node, sw[0], gfn.variant_edges(sw, "None")) for sw in sws)
+        ctx.ob("R14.1", "VacantSlot::insert/push-only-for-an-append-slot(index==None)", ok, site=gfn.site(c.node), cfg=fx.cfg)
     fn = ctx.fn(fx, KB + "KBucket::entry", "R14.1")
     if fn is None:
         return
-    for key, c in growers:
-        if key != fn.key:
-            continue
+    muts = [c for c in fn.calls(GROW_RX + r"|Vec::(remove|swap_remove|pop|clear|truncate|retain|drain)$") if re.search(r"\.nodes\b", fn.recv(c))]
+    ctx.ob("R14.1", "KBucket::entry/a-lookup-does-not-modify-the-bucket", not muts, site=fn.site(muts[0].node) if muts else fn.site(fn.entry), cfg=fx.cfg,
+           detail="mutating calls on nodes in entry(): %s" % [c.name for c in muts])
+    slots = [(n, s_) for n, s_ in fn.aggregates(r"bucket::VacantSlot$")]
+    ctx.anchor("R14.1", "KBucket::entry: VacantSlot aggregates", len(slots), 2, cfg=fx.cfg)
 
-        def is_q(f, o):
-            return any(l.dest[0] in slice_locals(f, o) for l in f.calls(r"Vec::len$") if re.search(r"\.nodes\b", f.recv(l)))
+    def is_q(f, o):
+        return any(l.dest[0] in slice_locals(f, o) for l in f.calls(r"Vec::len$") if re.search(r"\.nodes\b", f.recv(l)))
 
-        def is_b(f, o):
-            return f.const_value(o) == 20
-        ok, why = guards.guarded(fn, c.node, is_q, is_b, "<")
-        ctx.ob("R14.1", "KBucket::entry/push-behind-nodes.len<20", ok, site=fn.site(c.node), cfg=fx.cfg, detail=why)
+    def is_b(f, o):
+        return f.const_value(o) == 20
+    for n, s_ in slots:
+        f_ = dict(zip(s_["rv"].get("fields", []), s_["rv"]["ops"]))
+        sh = fn.shape(f_["index"]) if "index" in f_ else {"?"}
+        if sh == {"None"}:
+            ok, why = guards.guarded(fn, n, is_q, is_b, "<")
+            ctx.ob("R14.1", "KBucket::entry/append-slot-only-behind-nodes.len<20", ok, site=fn.site(n), cfg=fx.cfg, detail=why)
 
 
 def r14_2(ctx, fx):
@@ -118,28 +137,29 @@ def _index_local(fn, o):
 
 
 def r14_3(ctx, fx):
+    """eviction safety and lookup discipline of KBucket::entry, and what KBucketEntry::insert / VacantSlot::insert write"""
     fn = ctx.fn(fx, KB + "KBucket::entry", "R14.3")
     if fn is not None:
-        pushes = [c.node for c in fn.calls(r"Vec::push$") if re.search(r"\.nodes\b", fn.recv(c))]
         vac = fn.aggregates(r"KBucketEntry$", "Vacant")
         occ = fn.aggregates(r"KBucketEntry$", "Occupied")
+        slots = [(n, s_) for n, s_ in fn.aggregates(r"bucket::VacantSlot$")]
         ctx.anchor("R14.3", "KBucket::entry: Vacant aggregates", len(vac), 2, cfg=fx.cfg)
         ctx.anchor("R14.3", "KBucket::entry: Occupied aggregates", len(occ), 1, cfg=fx.cfg)
         conn_sw = [sw for sw in fn.discr_switches() if sw[2] and sw[2].endswith("ConnectionType") and "".join(map(str, sw[1][1:])).endswith(".connection")]
         ctx.anchor("R14.3", "KBucket::entry: switch on nodes[i].connection", len(conn_sw), 1, cfg=fx.cfg)
         n_evict = 0
-        for node, s in vac:
-            fresh = bool(pushes) and node not in fn.reach([fn.entry], avoid=pushes)
-            if fresh:
-                # the fresh slot is the last element: index derives from len() - 1 taken after the push
-                pr, idxl = _index_local(fn, s["rv"]["ops"][0])
-                lens = [l for l in fn.calls(r"Vec::len$") if re.search(r"\.nodes\b", fn.recv(l)) and l.node in fn.reach(pushes, after=True)]
-                ok = pr is not None and any(any(l.dest[0] in slice_locals(fn, {"c": [x]}) or ("call", l.name) in fn.roots({"c": [x]}) for x in idxl) for l in lens)
-                ctx.ob("R14.3", "KBucket::entry/Vacant(fresh)-is-the-pushed-slot", ok, site=fn.site(node), cfg=fx.cfg,
-                       detail="the fresh Vacant entry must designate the element just pushed (index rooted in nodes.len() after the push)")
-                continue
+        for node, s_ in slots:
+            f_ = dict(zip(s_["rv"].get("fields", []), s_["rv"]["ops"]))
+            sh = fn.shape(f_["index"]) if "index" in f_ else {"?"}
+            if sh == {"None"}:
+                continue    # append slot: R14.1
             n_evict += 1
-            pr, idxl = _index_local(fn, s["rv"]["ops"][0])
+            # a replace slot designates nodes[i]: the index stored is the index whose `connection` was switched on
+            idxl = set()
+            for l in slice_locals(fn, f_["index"]):
+                d = fn.single_def(l)
+                if d and d[1] == "assign" and d[2]["rv"]["r"] == "agg" and d[2]["rv"].get("var") == "Some":
+                    idxl |= slice_locals(fn, d[2]["rv"]["ops"][0])
             ok = False
             why = "no switch on the connection of the same element"
             for sw in conn_sw:
@@ -153,8 +173,9 @@ def r14_3(ctx, fx):
                 if fn.only_via(node, sw[0], allowed) and not bad_vars:
                     ok = True
                 why = "allowed edges %s, shared with Connected/CanConnect: %s" % (allowed, bad_vars)
-            ctx.ob("R14.3", "KBucket::entry/Vacant(existing)-only-if-NotConnected|CannotConnect#%d" % n_evict, ok, site=fn.site(node), cfg=fx.cfg,
+            ctx.ob("R14.3", "KBucket::entry/replace-slot#%d-only-for-a-NotConnected|CannotConnect-entry" % n_evict, ok, site=fn.site(node), cfg=fx.cfg,
                    detail="a connected peer is never displaced: " + why)
+        ctx.anchor("R14.3", "KBucket::entry: replace slots", n_evict, 1, cfg=fx.cfg)
         for node, s in occ:
             pr, idxl = _index_local(fn, s["rv"]["ops"][0])
             ok = False
@@ -167,8 +188,8 @@ def r14_3(ctx, fx):
                     continue
                 ok = ok or any(fn.only_via(node, sw, [t]) for sw, t, f in fn.bool_tests(c.dest[0]))
             ctx.ob("R14.3", "KBucket::entry/Occupied-only-if-nodes[i].key==key", ok, site=fn.site(node), cfg=fx.cfg)
-        # the key lookup runs to completion before any slot is handed out as Vacant / a new slot is pushed / NoSlot is answered:
-        # otherwise a peer stored behind a disconnected entry would be "found" as Vacant and duplicated
+        # the key lookup runs to completion before any slot is handed out as Vacant / NoSlot is answered: otherwise a peer stored
+        # behind a disconnected entry would be "found" as Vacant and duplicated
         eqs = [c for c in fn.calls(r"PartialEq(<.*>)?>?::eq$") if guards.rootstrs(fn, c.args[1]) == {"param:_2"} and fn.origin(c.args[0]).endswith(".key")]
         nxt = [c for c in fn.calls(r"Iterator>?::next$|iter::range::(<impl .*>::)?next$")]
         look = None
@@ -183,32 +204,42 @@ def r14_3(ctx, fx):
         if look:
             c, sw = look
             done = fn.variant_edges(sw, "None")
-            outs = [n for n, s2 in vac] + [n for n, s2 in fn.aggregates(r"KBucketEntry$", "NoSlot")] + pushes
+            outs = [n for n, s2 in vac] + [n for n, s2 in fn.aggregates(r"KBucketEntry$", "NoSlot")]
             late = [fn.site(n) for n in outs if not fn.only_via(n, sw[0], done)]
             ctx.ob("R14.3", "KBucket::entry/lookup-completes-before-a-slot-is-handed-out", not late, site=fn.site(c.node), cfg=fx.cfg,
-                   detail="Vacant / push / NoSlot reachable before every stored key was compared: %s" % late)
-        # NoSlot only after the bound check failed and the eviction scan is exhausted
-        nos = [n for n, s in fn.aggregates(r"KBucketEntry$", "NoSlot")]
-        for n in nos:
-            ctx.ob("R14.3", "KBucket::entry/NoSlot-not-after-push", bool(pushes) and n not in fn.reach(pushes, after=True), site=fn.site(n), cfg=fx.cfg)
+                   detail="Vacant / NoSlot reachable before every stored key was compared: %s" % late)
     fn = ctx.fn(fx, KB + "KBucketEntry::<'a>::insert", "R14.3")
     if fn is not None:
         sws = [sw for sw in fn.discr_switches() if sw[2] and sw[2].endswith("KBucketEntry")]
         ctx.anchor("R14.3", "KBucketEntry::insert: switch on self", len(sws), 1, cfg=fx.cfg)
-        wr = [n for n, s in fn.assigns() if "*" in "".join(s["lhs"][1:])]
-        ctx.anchor("R14.3", "KBucketEntry::insert: field writes", len(wr), 4, cfg=fx.cfg)
+        wr = [c.node for c in fn.calls(r"bucket::VacantSlot(::<.*>)?::insert$|VacantSlot(<.*>)?::insert$")] + [n for n, s in fn.assigns() if "*" in "".join(s["lhs"][1:])]
+        ctx.anchor("R14.3", "KBucketEntry::insert: store sites", len(wr), 1, cfg=fx.cfg)
         for sw in sws[:1]:
             vac = fn.variant_edges(sw, "Vacant")
             others = [v for v in ("LocalNode", "Occupied", "NoSlot") if set(fn.variant_edges(sw, v)) & set(vac)]
             ok = all(fn.only_via(n, sw[0], vac) for n in wr) and not others
             ctx.ob("R14.3", "KBucketEntry::insert/writes-only-on-Vacant", ok, site=fn.site(sw[0]), cfg=fx.cfg,
                    detail="an Occupied (live) entry must not be overwritten by insert; edges shared with %s" % others)
+    vfn = None
+    for k in fx.find(r"^protocol::libp2p::kademlia::bucket::VacantSlot(::<.*>)?::insert$"):
+        vfn = fx.fn(k)
+    ctx.anchor("R14.3", "VacantSlot::insert", 1 if vfn is not None else 0, 1, cfg=fx.cfg)
+    if vfn is not None:
+        ctx.bodies.add((fx.cfg, vfn.key))
         # the key stored is derived from the new peer id
-        for n, s in fn.assigns():
-            if "".join(s["lhs"][1:]).endswith(".key"):
-                rs = guards.rootstrs(fn, s["rv"]["o"]) if s["rv"]["r"] == "use" else set()
-                ctx.ob("R14.3", "KBucketEntry::insert/key=Key::from(new.peer)", any("Key" in x and "::from" in x for x in rs) and "param:_2.peer" in rs, site=fn.site(n), cfg=fx.cfg,
-                       detail="roots: %s" % sorted(rs))
+        keys_ok = False
+        for n, s_ in vfn.aggregates(r"types::KademliaPeer$"):
+            f_ = dict(zip(s_["rv"].get("fields", []), s_["rv"]["ops"]))
+            if "key" in f_:
+                rs = guards.rootstrs(vfn, f_["key"])
+                keys_ok = any("Key" in x and "::from" in x for x in rs) and any(x.startswith("param:_2") for x in rs)
+        ctx.ob("R14.3", "VacantSlot::insert/key=Key::from(new.peer)", keys_ok, site=vfn.site(vfn.entry), cfg=fx.cfg)
+        # the replace arm overwrites exactly the designated element (IndexMut with the stored index), the append arm pushes
+        im = [c for c in vfn.calls(r"IndexMut(<.*>)?>?::index_mut$")]
+        sws = [sw for sw in vfn.discr_switches() if sw[2].endswith("option::Option") and vfn.origin({"c": list(sw[1])}).endswith(".index")]
+        ok = bool(im) and bool(sws) and all(any(vfn.only_via(c.node, sw[0], vfn.variant_edges(sw, "Some")) for sw in sws) and vfn.origin(c.args[1]).endswith(".index@Some.0") for c in im)
+        ctx.ob("R14.3", "VacantSlot::insert/replace-arm-overwrites-nodes[index]", ok, site=vfn.site(im[0].node) if im else vfn.site(vfn.entry), cfg=fx.cfg,
+               detail="index origins: %s" % [vfn.origin(c.args[1]) for c in im])
 
 
 def r14_6(ctx, fx):
@@ -341,7 +372,7 @@ def r14_7(ctx, fx):
                 okg = bool(guard) and node not in fn.reach([fn.entry], cut=guard)
                 ctx.ob("R14.7", "%s/re-discovery-never-downgrades-a-Connected-entry" % who, okg, site=fn.site(node), cfg=fx.cfg,
                        detail="the Occupied-arm write of the caller's value must be guarded by `entry.connection != Connected` (guards found: %d)" % len(guard))
-    ctx.anchor("R14.7", "writes to KademliaPeer.connection", n, 4, cfg=fx.cfg)
+    ctx.anchor("R14.7", "writes to KademliaPeer.connection", n, 3, cfg=fx.cfg)
     m = 0
     for key in sorted(fx.callers_of("protocol::libp2p::kademlia::routing_table::RoutingTable::add_known_peer")):
         fn = fx.fn(key)
